@@ -510,6 +510,9 @@ def run(tape: Tape) -> Outcome:
                     else:
                         out.violate(("clear-raised", type(e).__name__), round=ri, steps=steps_dec)
                         break
+                except Exception as e:  # anything else out of clear() is an outcome, not a harness error
+                    out.violate(("clear-raised", type(e).__name__), round=ri, steps=steps_dec)
+                    break
             elif rd[0] == "restart":
                 p = procs[rd[1]]
                 fs.dead.add(p.pid)
